@@ -37,7 +37,8 @@ class Traced:
     """f(*args) traced from the real source.  Array leaves of args are jaxpr inputs; every other leaf
     (python scalars, strings, static fields) is closed over.  `conc` selects leaves kept concrete."""
 
-    def __init__(self, f, args, prefix="a", conc=None, x64=True, use_stubs=False, sym_consts=False):
+    def __init__(self, f, args, prefix="a", conc=None, x64=True, use_stubs=False, sym_consts=False,
+                 trace_only_is_violation=False):
         self.f = f; self.args = args; self.prefix = prefix; self.use_stubs = use_stubs
         self.dyn, self.static = eqx.partition(args, _is_arr)
         flat, self.in_tree = jax.tree_util.tree_flatten(self.dyn)
@@ -206,6 +207,52 @@ class Recorder:
         return d
 
     # ------------------------------------------------------------------
+    def trace(self, prog, f, args, key=None, **kw):
+        """Traced(f, args) -- if the REAL code raises while being traced, it is run concretely on the
+        example arguments: raising there too is a violation (the code rejects/crashes on an input the
+        property covers); tracing-only failures are reported by the caller's policy (trace_only)."""
+        if self.replay is not None and self.replay.get("goal") == "real code raises" :
+            if self.replay.get("prog") != prog: return None
+            try:
+                f(*args); self.replay_result = dict(reproduced=False, note="no exception")
+            except Exception as ex:
+                self.replay_result = dict(reproduced=True, note=f"{type(ex).__name__}: {ex}")
+            return None
+        try:
+            return Traced(f, args, **kw)
+        except NotEncodable:
+            raise
+        except Exception as ex:
+            msg = f"{type(ex).__name__}: {str(ex).splitlines()[0][:200] if str(ex) else ''}"
+            try:
+                if kw.get("use_stubs"): stubs.install()
+                try: f(*args)
+                finally:
+                    if kw.get("use_stubs"): stubs.uninstall()
+                concrete_ok = True
+            except Exception as ex2:
+                concrete_ok = False
+                msg = f"{type(ex2).__name__}: {str(ex2).splitlines()[0][:200] if str(ex2) else ''}"
+            k = key or f"{prog}/real code raises"
+            if not concrete_ok:
+                self._record_violation(k, prog, "real code raises", {}, note=msg)
+            elif kw.get("trace_only_is_violation"):
+                self._record_violation(k, prog, "real code raises", {}, note="runs eagerly but cannot be traced: " + msg)
+            else:
+                self.errors.append(f"{prog}: tracing failed although the concrete run succeeds: {msg}")
+            self.records.append(dict(prog=prog, goal="real code runs on the example input", verdict="sat", phase="trace", ms=0.0))
+            return None
+
+    def _record_violation(self, key, prog, gname, model, note=""):
+        os.makedirs("/verif/replays", exist_ok=True)
+        h = hashlib.sha1((self.prop + json.dumps(self.cfg, sort_keys=True) + prog + gname).encode()).hexdigest()[:10]
+        path = f"/verif/replays/{self.prop}-{h}.json"
+        with open(path, "w") as f:
+            json.dump(dict(property=self.prop, cfg=self.cfg, prog=prog, goal=gname, key=key, seed=self.seed,
+                           model={k: (str(v) if isinstance(v, Fraction) else v) for k, v in model.items()},
+                           note=note), f, indent=1)
+        self.violations.append(dict(key=key, prog=prog, goal=gname, replay=path, note=note))
+
     def check(self, prog, tr: Traced, goal_fn, assume=(), twin_fn=None, hint_spec=(), O=None,
               interp_kw=None, validate=True, key_fn=None, concrete_pred=None, extra_assume_fn=None):
         """Decide every goal of goal_fn(A, O) -> [(name, Bool term)] for the traced program.
@@ -288,14 +335,7 @@ class Recorder:
         rp = self._replay(prog, tr, goal_fn, gname, model, hints, concrete_pred)
         key = key_fn(prog, gname) if key_fn else f"{prog}/{gname}"
         if rp["reproduced"]:
-            os.makedirs("/verif/replays", exist_ok=True)
-            h = hashlib.sha1((self.prop + json.dumps(self.cfg, sort_keys=True) + prog + gname).encode()).hexdigest()[:10]
-            path = f"/verif/replays/{self.prop}-{h}.json"
-            with open(path, "w") as f:
-                json.dump(dict(property=self.prop, cfg=self.cfg, prog=prog, goal=gname, key=key, seed=self.seed,
-                               model={k: (str(v) if isinstance(v, Fraction) else v) for k, v in model.items()},
-                               note=rp["note"]), f, indent=1)
-            self.violations.append(dict(key=key, prog=prog, goal=gname, replay=path, note=rp["note"]))
+            self._record_violation(key, prog, gname, model, note=rp["note"])
         elif rp["reproduced"] is False:
             self.errors.append(f"{prog}/{gname}: solver model does not reproduce on the real code (encoding or stub wrong)")
         else:
